@@ -3,9 +3,10 @@ from __future__ import annotations
 
 import ast
 
-from ..astutil import dotted, is_none, norm, strip_docstring, walk_body
+from ..astutil import dotted, is_none, norm, strip_docstring, walk_body, walk_local
 from ..dtree import bool_function, decision_tree, leave
 from ..finite import NeedAtom
+from ..flow import Interp, Semantics
 from ..grammar import arg_uses, lift, load
 from ..report import Checker
 from ..srcmodel import Func, Unsupported
@@ -322,6 +323,121 @@ def r_anywhere(ck: Checker) -> None:
         ck.holds("R-XP-ANYWHERE", g, g.node, what, evaluations=len(rows))
 
 
+
+class _FactSem(Semantics):
+    """Facts (canonical comparison key, polarity) established by branch / loop conditions, killed by re-assignment."""
+
+    def __init__(self) -> None:
+        self.at: dict[int, list[frozenset]] = {}
+
+    def may_raise_expr(self, e):
+        return False
+
+    def may_raise_stmt(self, st):
+        return False
+
+    def simple(self, state, st):
+        for n in walk_local(st):
+            self.at.setdefault(id(n), []).append(state)
+        names = {n.id for n in walk_local(st) if isinstance(n, ast.Name) and isinstance(n.ctx, ast.Store)}
+        if names:
+            state = frozenset((k, p) for k, p in state if not any(nm in k.replace("(", ",").replace(")", ",").split(",") for nm in names))
+        return (state,)
+
+    def bind_loop(self, state, st):
+        names = {n.id for n in ast.walk(st.target) if isinstance(n, ast.Name)}
+        return (frozenset((k, p) for k, p in state if not any(nm in k.replace("(", ",").replace(")", ",").split(",") for nm in names)),)
+
+    def cond(self, state, test):
+        from ..finite import canon_cmp
+
+        def facts(pol: bool) -> frozenset:
+            out = set(state)
+            t, p = test, pol
+            while isinstance(t, ast.UnaryOp) and isinstance(t.op, ast.Not):
+                t, p = t.operand, not p
+            if isinstance(t, ast.Compare):
+                cc = canon_cmp(t)
+                if cc is not None:
+                    out.add((cc[0], cc[1] == p))
+            return frozenset(out)
+
+        return (facts(True),), (facts(False),)
+
+
+def r_xp_elements(ck: Checker, modname: str = XP, rule: str = "R-XP-ELEMENTS", min_count: int = 3) -> None:
+    """Bookkeeping of XPathTransformer.xpath: every compiled element has a class, and turning an element into an
+    'anywhere' element keeps its class, field and index."""
+    c = ck.repo.cls(modname, "XPathTransformer")
+    fn = next((st for st in c.node.body if isinstance(st, ast.FunctionDef) and st.name == "xpath"), None)
+    if fn is None:
+        raise Unsupported("XPathTransformer.xpath not found")
+    f = Func(c.mod, "XPathTransformer.xpath", fn, c.node)
+    sem = _FactSem()
+    Interp(sem, max_rounds=8).block(fn.body, {frozenset()})
+    n = 0
+    for call in [x for x in walk_body(fn.body) if isinstance(x, ast.Call) and dotted(x.func) == "ASTXpathElement"]:
+        n += 1
+        args = {k.arg: k.value for k in call.keywords}
+        for name, a in zip(("ast_class", "parent_field", "parent_index", "anywhere"), call.args):
+            args[name] = a
+        anyw = args.get("anywhere")
+        if anyw is not None and isinstance(anyw, ast.Constant) and anyw.value is True:
+            what = "turning the last element into an 'anywhere' element keeps its class, field and index"
+            got = [norm(args.get(k)) if args.get(k) is not None else None for k in ("ast_class", "parent_field", "parent_index")]
+            base = got[0].rsplit(".", 1)[0] if got[0] and got[0].endswith(".ast_class") else None
+            if base and got == [f"{base}.ast_class", f"{base}.parent_field", f"{base}.parent_index"]:
+                ck.holds(rule, f, call, what, element=norm(call)[:80])
+            else:
+                ck.violation(rule, f, call, what, construct=f"XPathTransformer.xpath rebuilds an element as {norm(call)[:90]}")
+        else:
+            what = "every compiled step has a class (the empty elements of '//' are folded until a real step is reached) and carries the field / index of that same step"
+            cls_expr = args.get("ast_class")
+            states = sem.at.get(id(call), [])
+            ok_cls = isinstance(cls_expr, ast.Name) and states and all((f"is(None,{cls_expr.id})", False) in st for st in states)
+            trio = [norm(args.get(k)) if args.get(k) is not None else None for k in ("parent_field", "parent_index", "ast_class")]
+            # the three names come from one tuple unpack
+            unpacks = [st for st in walk_body(fn.body) if isinstance(st, ast.Assign) and isinstance(st.targets[0], ast.Tuple)
+                       and [norm(x) for x in st.targets[0].elts] == trio]
+            if ok_cls and unpacks:
+                ck.holds(rule, f, call, what, evaluations=len(states))
+            elif not ok_cls:
+                ck.violation(rule, f, call, what, evaluations=len(states),
+                             construct="XPathTransformer.xpath: an element may be compiled with ast_class None (the fold over empty '//' elements does not run until a class is found)")
+            else:
+                ck.violation(rule, f, call, what, construct=f"XPathTransformer.xpath: element fields {trio} do not come from one parsed step")
+    if n < min_count:
+        ck.incomplete(rule, None, None, f"only {n} ASTXpathElement constructions in the transformer ({min_count} expected)")
+
+
+def r_xp_once(ck: Checker) -> None:
+    f = ck.repo.func(XP, "ASTXpath.findall")
+    fn = f.node
+    what = "findall yields each node once: the work sets are insertion-ordered dicts keyed by the traversal record"
+    outer = [st for st in fn.body if isinstance(st, ast.For) and norm(st.iter) == "self._elements"]
+    bad = None
+    if len(outer) != 1:
+        raise Unsupported("findall: loop over self._elements not found", fn)
+    inits = [st for st in outer[0].body if isinstance(st, (ast.Assign, ast.AnnAssign))]
+    nw = None
+    for st in inits:
+        v = st.value
+        if isinstance(v, ast.Dict) and not v.keys or (isinstance(v, ast.Call) and dotted(v.func) == "dict" and not v.args):
+            nw = norm(st.target if isinstance(st, ast.AnnAssign) else st.targets[0])
+    if nw is None:
+        bad = "the per-step work set is not a fresh dict (duplicates are not merged)"
+    else:
+        stores = [st for st in walk_body(outer[0].body) if isinstance(st, ast.Assign) and isinstance(st.targets[0], ast.Subscript) and norm(st.targets[0].value) == nw]
+        others = [c for c in walk_body(outer[0].body) if isinstance(c, ast.Call) and isinstance(c.func, ast.Attribute) and norm(c.func.value) == nw
+                  and c.func.attr in ("append", "extend", "add", "update", "setdefault")]
+        if not stores or others:
+            bad = f"records are added to the work set with {[norm(o)[:30] for o in others] or 'nothing'}"
+        ys = [n for n in walk_body(fn.body) if isinstance(n, (ast.Yield, ast.YieldFrom))]
+        if len(ys) != 1 or nw not in norm(ys[0]):
+            bad = bad or "the result is not taken from the final work set"
+    (ck.violation if bad else ck.holds)("R-XP-ONCE", f, fn, what, **({"construct": f"findall: {bad}"} if bad else {}))
+
+
 def r_find(ck: Checker) -> None:
     f = ck.repo.func(NODE, "ASTNode.find")
     fn = f.node
@@ -357,7 +473,8 @@ def run(ck: Checker) -> None:
         "Grammar <-> transformer agreement (the grammar literal is loaded with lark's grammar loader; a variadic kept terminal requires a "
         "callback that consumes all arguments), truth table of the shared step predicate over its six atoms, root presentation in both "
         "algorithms (must-pass-through of the root sanitiser in findall; get_parent_info in match), full traversal for '//' in findall, "
-        "decision tree of the bottom-up matcher with the ancestor loop abstracted, find = first of findall. Equivalence of the two algorithms "
+        "decision tree of the bottom-up matcher with the ancestor loop abstracted, find = first of findall, element bookkeeping of the "
+        "transformer (every compiled step has a class; folding '//' keeps class, field and index), ordered-set work lists. Equivalence of the two algorithms "
         "as programs over all paths and trees is not decided."
     )
     ck.rule_text = "one obligation per grammar rule / call site / decision tree"
@@ -368,5 +485,7 @@ def run(ck: Checker) -> None:
     ck.guard("R-XP-ROOT", lambda: r_root(ck))
     ck.guard("R-XP-ANYWHERE", lambda: r_anywhere(ck))
     ck.guard("R-XP-FIND", lambda: r_find(ck))
+    ck.guard("R-XP-ELEMENTS", lambda: r_xp_elements(ck))
+    ck.guard("R-XP-ONCE", lambda: r_xp_once(ck))
     ck.require_count("R-XP-SHARED", 3)
     ck.require_count("R-XP-ANYWHERE", 3)
